@@ -40,7 +40,63 @@ pub fn desync(msg: &str) -> ! {
     std::process::exit(78);
 }
 
+thread_local! {
+    static RNG: RefCell<Option<u64>> = RefCell::new(None);
+}
+
+fn rnd() -> u64 {
+    RNG.with(|r| {
+        let mut r = r.borrow_mut();
+        if r.is_none() {
+            let seed: u64 = std::env::var("VERIF_REPLAY_SEARCH").ok().and_then(|s| s.parse().ok()).unwrap_or(1);
+            *r = Some(seed.wrapping_mul(0x9E37_79B9_7F4A_7C15) | 1);
+        }
+        // xorshift64*
+        let mut x = r.unwrap();
+        x ^= x >> 12;
+        x ^= x << 25;
+        x ^= x >> 27;
+        *r = Some(x);
+        x.wrapping_mul(0x2545_F491_4F6C_DD1D)
+    })
+}
+
+/// Witness-search mode (VERIF_REPLAY_SEARCH=<seed>): when the solver reports a failed built-in
+/// check for which Kani writes no playback (bounds checks, arithmetic overflow), the driver runs
+/// the harness natively with pseudo-random values biased towards small numbers until one trial
+/// reproduces the failure; every drawn value is printed (`DRAW <hex>`) so that the witness can be
+/// stored and replayed like a solver counterexample.  The verdict is the solver's; this only
+/// concretises it.
+fn search_bytes(n: usize) -> Vec<u8> {
+    let mode = rnd() % 100;
+    let mut v = vec![0u8; n];
+    if mode < 20 {
+        // zero
+    } else if mode < 70 {
+        v[0] = (rnd() % 4) as u8;
+    } else if mode < 85 {
+        v[0] = (rnd() % 256) as u8;
+        if n > 1 {
+            v[1] = (rnd() % 4) as u8;
+        }
+    } else if mode < 90 {
+        for b in v.iter_mut() {
+            *b = 0xff;
+        }
+    } else {
+        for b in v.iter_mut() {
+            *b = rnd() as u8;
+        }
+    }
+    let hex: String = v.iter().map(|b| format!("{:02x}", b)).collect();
+    eprintln!("DRAW {}", hex);
+    v
+}
+
 pub fn next_bytes(n: usize) -> Vec<u8> {
+    if std::env::var("VERIF_REPLAY_SEARCH").is_ok() {
+        return search_bytes(n);
+    }
     VALUES.with(|v| {
         let mut v = v.borrow_mut();
         if v.is_none() {
@@ -76,7 +132,10 @@ int_arb!(u8, u16, u32, u64, u128, usize, i8, i16, i32, i64, i128, isize);
 
 impl Arbitrary for bool {
     fn any() -> Self {
-        let b = next_bytes(1);
+        let mut b = next_bytes(1);
+        if std::env::var("VERIF_REPLAY_SEARCH").is_ok() {
+            b[0] &= 1;
+        }
         if b[0] > 1 {
             // Kani's bool::any() assumes the byte is 0 or 1
             std::process::exit(77);
